@@ -755,9 +755,27 @@ pub fn canon_num(s: &str) -> String {
 /// ORDER BY where SPARQL determines it. For nested selects the LIMIT is applied; if the cut is not
 /// determined (ties / no ORDER BY) the context's `ambiguous` counter is raised.
 pub fn eval_select_full(q: &Select, ctx: &EvalCtx, active: &Active) -> Vec<Vec<Option<String>>> {
+    let (rows, visible, _) = eval_select_ext(q, ctx, active);
+    rows.into_iter().map(|mut r| { r.truncate(visible); r }).collect()
+}
+
+/// As `eval_select_full`, but the rows carry, after the `visible` projected columns, the ORDER BY keys that the
+/// select does not project (ORDER BY applies before projection; only generated for nested non-aggregate, non-DISTINCT
+/// selects). Returns (rows, visible, key positions with direction).
+fn eval_select_ext(q: &Select, ctx: &EvalCtx, active: &Active) -> (Vec<Vec<Option<String>>>, usize, Vec<(usize, bool)>) {
     let sols = eval_group(&q.body, ctx, active);
-    let cols = q.columns();
-    let mut rows: Vec<Vec<Option<String>>> = if q.has_agg() || !q.group_by.is_empty() {
+    let visible_cols = q.columns();
+    let visible = visible_cols.len();
+    let aggregating = q.has_agg() || !q.group_by.is_empty();
+    let mut cols = visible_cols.clone();
+    if !aggregating && !q.distinct {
+        for (v, _) in &q.order {
+            if !cols.contains(v) {
+                cols.push(v.clone());
+            }
+        }
+    }
+    let mut rows: Vec<Vec<Option<String>>> = if aggregating {
         let mut groups: BTreeMap<Vec<Option<String>>, Vec<Sol>> = BTreeMap::new();
         for s in sols {
             let key: Vec<Option<String>> = q.group_by.iter().map(|v| s.get(v).cloned()).collect();
@@ -811,7 +829,7 @@ pub fn eval_select_full(q: &Select, ctx: &EvalCtx, active: &Active) -> Vec<Vec<O
     } else {
         sols.iter().map(|s| cols.iter().map(|c| s.get(c).cloned()).collect()).collect()
     };
-    // ORDER BY (keys are always projected columns in the generated fragment)
+    // ORDER BY (keys are projected columns, or hidden key columns appended above)
     let keys: Vec<(usize, bool)> = q.order.iter().filter_map(|(v, d)| cols.iter().position(|c| c == v).map(|i| (i, *d))).collect();
     if keys.len() != q.order.len() {
         ctx.out_of_fragment.set(ctx.out_of_fragment.get() + 1);
@@ -824,38 +842,36 @@ pub fn eval_select_full(q: &Select, ctx: &EvalCtx, active: &Active) -> Vec<Vec<O
         let mut seen = BTreeSet::new();
         rows.retain(|r| seen.insert(r.clone()));
     }
-    rows
+    (rows, visible, keys)
 }
 
 /// Rows of a nested select (LIMIT applied). Raises `ambiguous` when the cut is not determined.
 fn eval_select_rows(q: &Select, ctx: &EvalCtx, active: &Active) -> Vec<Vec<Option<String>>> {
-    let mut rows = eval_select_full(q, ctx, active);
+    let (mut rows, visible, keys) = eval_select_ext(q, ctx, active);
     if let Some(l) = q.limit {
         if l < rows.len() {
-            if l > 0 && !cut_is_determined(&rows, l, q, ctx) {
+            if l > 0 && !cut_is_determined(&rows, l, q, &keys, visible) {
                 ctx.ambiguous.set(ctx.ambiguous.get() + 1);
             }
             rows.truncate(l);
         }
     }
-    rows
+    rows.into_iter().map(|mut r| { r.truncate(visible); r }).collect()
 }
 
 /// A LIMIT cut at position l (0 < l < len) of an ordered row list is determined iff every pair of
 /// rows is ordered by the keys wherever they differ (a total, fully determined order) around the cut.
-fn cut_is_determined(rows: &[Vec<Option<String>>], l: usize, q: &Select, _ctx: &EvalCtx) -> bool {
+fn cut_is_determined(rows: &[Vec<Option<String>>], l: usize, q: &Select, keys: &[(usize, bool)], visible: usize) -> bool {
     if q.order.is_empty() {
         // without ORDER BY any l rows are legal; determined only if all rows are identical
-        return rows.iter().all(|r| r == &rows[0]);
+        return rows.iter().all(|r| r[..visible] == rows[0][..visible]);
     }
-    let cols = q.columns();
-    let keys: Vec<(usize, bool)> = q.order.iter().filter_map(|(v, d)| cols.iter().position(|c| c == v).map(|i| (i, *d))).collect();
-    // every kept row must be strictly before every dropped row, or identical to it
+    // every kept row must be strictly before every dropped row, or show the same projected row
     for a in &rows[..l] {
         for b in &rows[l..] {
-            match cmp_rows(a, b, &keys) {
+            match cmp_rows(a, b, keys) {
                 Some(std::cmp::Ordering::Less) => {}
-                Some(std::cmp::Ordering::Equal) if a == b => {}
+                Some(std::cmp::Ordering::Equal) if a[..visible] == b[..visible] => {}
                 _ => return false,
             }
         }
@@ -863,7 +879,7 @@ fn cut_is_determined(rows: &[Vec<Option<String>>], l: usize, q: &Select, _ctx: &
     // and the order among all rows must be determined (no unrelated kinds)
     for i in 0..rows.len() {
         for j in i + 1..rows.len() {
-            if cmp_rows(&rows[i], &rows[j], &keys).is_none() {
+            if cmp_rows(&rows[i], &rows[j], keys).is_none() {
                 return false;
             }
         }
@@ -972,9 +988,12 @@ pub fn obj_for(k: PredKind, sel: usize) -> Tm {
 }
 
 pub fn data_triple() -> impl Strategy<Value = Triple3> {
-    (0usize..N_SUBJ, 0usize..7, 0usize..63).prop_map(|(s, p, o)| {
+    // one triple in eight is ABOUT a named graph (its subject is a graph IRI, possibly stored in another graph): a
+    // `GRAPH ?g { ... ?g ... }` block that uses its graph variable as a term has answers only over such data
+    (0usize..N_SUBJ + 1, 0usize..7, 0usize..63, 0usize..3).prop_map(|(s, p, o, g)| {
         let k = pred_kind(p);
-        [subj(s), pred_tm(k), obj_for(k, o)]
+        let subject = if s == N_SUBJ && g < 3 && o % 3 != 0 { Tm::Iri(GRAPHS[g].to_string()) } else { subj(s) };
+        [subject, pred_tm(k), obj_for(k, o)]
     })
 }
 
@@ -1654,7 +1673,15 @@ impl<'d> Builder<'d> {
             Proj::Items(vs.into_iter().map(ProjItem::Var).collect())
         };
         let mut q = Select { distinct: r.distinct, proj, from: vec![], from_named: vec![], body, group_by, order: vec![], limit: None };
-        let cols = q.columns();
+        let mut cols = q.columns();
+        if !top && !q.distinct && !q.has_agg() && q.group_by.is_empty() && matches!(q.proj, Proj::Items(_)) {
+            // a nested select may sort by a variable it does not project (ORDER BY applies before the projection)
+            for v in &vi.certain {
+                if !cols.contains(v) {
+                    cols.push(v.clone());
+                }
+            }
+        }
         if !cols.is_empty() {
             for (s, d) in &r.order {
                 let v = cols[pick_idx(*s, cols.len())].clone();
@@ -1683,6 +1710,69 @@ pub fn data_query_strategy(depth: u32, max_default: usize, max_named: usize) -> 
         .prop_map(|(d, r)| {
             let q = Builder::new(&d).select(&r, true);
             (d, q)
+        })
+        .boxed()
+}
+
+/// (dataset, query) pairs in which a `GRAPH ?g { ... }` block uses its graph variable as a TERM of its patterns
+/// (`GRAPH ?g { ?x p0 ?y . ?g p1 ?y }`), over data in which triples about a named graph are stored in that graph, in
+/// another named graph or in the default graph. The block is a join, so every join algorithm / pattern order meets a
+/// scan whose graph variable is bound by the scan itself or by the other side.
+pub fn graph_var_term_strategy() -> BoxedStrategy<(DataSet, Select)> {
+    let term = |i: usize| -> Tm {
+        match i % 7 {
+            0 => Tm::Iri(format!("{NS}s0")),
+            1 => Tm::Iri(format!("{NS}s1")),
+            2 => Tm::Iri(GRAPHS[0].to_string()),
+            3 => Tm::Iri(GRAPHS[1].to_string()),
+            4 => Tm::Iri(GRAPHS[2].to_string()),
+            5 => Tm::Iri(format!("{NS}o0")),
+            _ => Tm::Iri(format!("{NS}s12")),
+        }
+    };
+    let triple = (0usize..7, 0usize..2, 0usize..7).prop_map(move |(s, p, o)| [term(s), Tm::Iri(format!("{NS}p{p}")), term(o)]);
+    let graph = proptest::collection::vec(triple.clone(), 1..7);
+    (
+        proptest::collection::vec(triple, 0..5),
+        proptest::collection::vec(graph, 2..=3),
+        proptest::collection::vec((0usize..6, any::<bool>()), 2..=3),
+        proptest::option::weighted(0.3, 0usize..3),
+        any::<bool>(),
+    )
+        .prop_map(|(default, graphs, pats, outside, gname)| {
+            let named: Vec<(String, Vec<Triple3>)> = graphs.into_iter().enumerate().map(|(i, ts)| (GRAPHS[i].to_string(), ts)).collect();
+            let g = if gname { "g" } else { "a" };
+            let v = |n: &str| PT::Var(n.to_string());
+            let p = |i: usize| PT::C(Tm::Iri(format!("{NS}p{i}")));
+            let other = if g == "a" { "x" } else { "a" };
+            let shapes: Vec<[PT; 3]> = vec![
+                [v(other), p(0), v("b")],
+                [v(g), p(1), v("b")],
+                [v("b"), p(1), v(g)],
+                [v(g), p(0), v(other)],
+                [v(other), p(1), v("c")],
+                [v(g), p(0), v(g)],
+            ];
+            let mut inner: Vec<[PT; 3]> = pats.iter().map(|(i, _)| shapes[*i].clone()).collect();
+            // at least one pattern of the block uses the graph variable as a term
+            if !inner.iter().any(|t| t.iter().any(|x| matches!(x, PT::Var(n) if n == g))) {
+                inner.push(shapes[1].clone());
+            }
+            if pats[0].1 {
+                inner.reverse();
+            }
+            let mut body = vec![Elem::Graph(GName::Var(g.to_string()), vec![Elem::Bgp(inner)])];
+            if let Some(k) = outside {
+                // the graph variable also joins with the default graph
+                let t = [[v(g), p(0), v("d")], [v("d"), p(1), v(g)], [v("b"), p(0), v("d")]][k].clone();
+                if k == 0 {
+                    body.insert(0, Elem::Bgp(vec![t]));
+                } else {
+                    body.push(Elem::Bgp(vec![t]));
+                }
+            }
+            let q = Select { distinct: false, proj: Proj::Star, from: vec![], from_named: vec![], body, group_by: vec![], order: vec![], limit: None };
+            (DataSet { default, named }, q)
         })
         .boxed()
 }
@@ -1729,6 +1819,9 @@ pub fn features(q: &Select) -> Vec<&'static str> {
         if q.group_by.len() >= 2 {
             f.insert("group-by-2");
         }
+        if nested && q.order.iter().any(|(v, _)| !q.columns().contains(v)) {
+            f.insert("sub-order-by-unprojected-variable");
+        }
         if !q.order.is_empty() {
             f.insert(if nested { "sub-order" } else { "order" });
         }
@@ -1757,8 +1850,17 @@ pub fn features(q: &Select) -> Vec<&'static str> {
             Elem::Union(_) => {
                 f.insert("union");
             }
-            Elem::Graph(GName::Var(_), _) => {
+            Elem::Graph(GName::Var(v), body) => {
                 f.insert("graph-var");
+                let mut used = false;
+                count_ops(body, &mut |e| {
+                    if let Elem::Bgp(ts) = e {
+                        used |= ts.iter().any(|t| t.iter().any(|x| matches!(x, PT::Var(n) if n == v)));
+                    }
+                });
+                if used {
+                    f.insert("graph-var-used-as-term");
+                }
             }
             Elem::Graph(GName::Iri(_), _) => {
                 f.insert("graph-iri");
